@@ -424,4 +424,21 @@ def _collected_extras_known_branches(ctx):
     check_program(ctx, random.Random(0), "dataclass", fields, recipe, lay, MODES[:2])
 
 
-DIRECTED = {"omit-default-unhashable-default": _omit_default_unhashable, "collected-extras-known-branches": _collected_extras_known_branches}
+def _enum_class_as_single_predicate(ctx):
+    """'Both parameters take predicate or iterable of predicates': an Enum CLASS is one predicate although it is iterable (defect #63)."""
+    from dataclasses import make_dataclass  # noqa: PLC0415
+
+    from adaptix import Retort, name_mapping  # noqa: PLC0415
+
+    M = make_dataclass("M", [("a", int), ("c", spec.EInt), ("s", spec.EStr)])
+    x = M(1, spec.EInt.A, spec.EStr.X)
+    for kw, want in (({"skip": spec.EInt}, {"a": 1, "s": "x"}), ({"only": spec.EInt}, {"c": 1}), ({"skip": [spec.EInt]}, {"a": 1, "s": "x"}), ({"only": (spec.EInt, spec.EStr)}, {"c": 1, "s": "x"}),
+                     ({"omit_default": spec.EInt}, {"a": 1, "c": 1, "s": "x"})):
+        out = attempt(lambda kw=kw: Retort(recipe=[name_mapping(M, **kw)]).dump(x))
+        ctx.evaluated(("enum-class-predicate", repr(kw)))
+        ctx.count("dumps")
+        if out.kind != "ok" or out.value != want:
+            ctx.violation("dump-layout-mismatch:enum-class-predicate", f"name_mapping(M, {kw}): {out!r:.200}, documented {want!r}", {"kw": repr(kw)})
+
+
+DIRECTED = {"enum-class-as-single-predicate": _enum_class_as_single_predicate, "omit-default-unhashable-default": _omit_default_unhashable, "collected-extras-known-branches": _collected_extras_known_branches}
